@@ -179,11 +179,35 @@ fn core_of(obj: &Obj) -> Option<&CoreDocument> {
   }
 }
 
+/// A reader of published services meets damaged ones too. Whatever the library refuses must leave nothing behind: the next
+/// well-formed endpoint is read as if the refused ones had never been offered (same thread, same process).
+fn offer_damaged_endpoints_first() {
+  let good = RevocationBitmap::new();
+  let id = DIDUrl::parse("did:example:someone#damaged").unwrap();
+  let Ok(svc) = good.to_service(id) else { return };
+  let Ok(mut v) = serde_json::to_value(&svc) else { return };
+  let Some(text) = v["serviceEndpoint"].as_str().map(|x| x.to_string()) else { return };
+  let Some((head, data)) = text.split_once(',') else { return };
+  let zlib_of_garbage = "eJxLTEpOSU1LzwAADcwDDQ"; // zlib("abcdefgh"): inflates, but is no roaring bitmap
+  for damaged in [
+    format!("{head},{}", &data[..data.len() / 2]),                         // truncated zlib stream
+    format!("{head},{}", BaseEncoding::encode(b"no zlib stream at all, just bytes", Base::Base64Url)),
+    format!("{head},{zlib_of_garbage}"),
+    format!("{head},{data}AAAA"),                                          // bytes after the stream
+  ] {
+    v["serviceEndpoint"] = json!(damaged);
+    if let Ok(s) = serde_json::from_value::<Service>(v.clone()) {
+      let _ = RevocationBitmap::try_from(&s);
+    }
+  }
+}
+
 /// The bitmap as a third party would read it: from the document's service endpoint.
 fn current_bitmap(obj: &Obj, kind: Kind) -> Result<RevocationBitmap, String> {
   match obj {
     Obj::Raw(b) => Ok(b.clone()),
     _ => {
+      offer_damaged_endpoints_first();
       let doc = core_of(obj).unwrap();
       let id = service_id(kind, &iota_did());
       doc
@@ -279,6 +303,7 @@ fn apply(obj: &mut Obj, kind: Kind, op: &Value, k: usize) -> Result<Value, Strin
       // through JSON as well: the endpoint is what gets published
       let json = serde_json::to_value(&svc).map_err(|e| e.to_string())?;
       let svc2: Service = serde_json::from_value(json).map_err(|e| format!("service json: {e}"))?;
+      offer_damaged_endpoints_first();
       let back = RevocationBitmap::try_from(&svc2).map_err(|e| format!("own endpoint rejected: {e}"))?;
       Ok(json!({"ok": back == bm}))
     }
